@@ -74,11 +74,17 @@ def _harness_hash(subdirs):
                     h.update(fh.read())
     return h.hexdigest()
 
+class BuildFailed(SystemExit):
+    """an engine does not compile / link against the tree under test (exit status 3 when nobody handles it)"""
+    def __init__(self, cmd, output):
+        SystemExit.__init__(self, 3)
+        self.cmd, self.output = cmd, output
+
 def _run(cmd, log):
     r = subprocess.run(cmd, shell=True, stdout=subprocess.PIPE, stderr=subprocess.STDOUT, text=True)
     if r.returncode != 0:
         sys.stderr.write("BUILD FAILED: %s\n%s\n" % (cmd, r.stdout[-6000:]))
-        raise SystemExit(3)
+        raise BuildFailed(cmd, r.stdout)
     return r.stdout
 
 def build(name, jobs=None, quiet=True):
